@@ -141,18 +141,33 @@ class Ctx:
                 names.append(".".join(ns + [m.group(1)]))
         return names
 
+    def import_closure(self, modules):
+        """Source files of the project modules reachable from `modules` through `import`."""
+        seen, todo, files = set(), list(modules), []
+        while todo:
+            m = todo.pop()
+            if m in seen:
+                continue
+            seen.add(m)
+            p = os.path.join(LEAN, m.replace(".", "/") + ".lean")
+            if not os.path.exists(p):
+                continue
+            files.append(p)
+            for line in open(p):
+                mm = re.match(r"\s*(?:public\s+)?import\s+((?:PPLV|Driver)\.[\w.]+)", line)
+                if mm:
+                    todo.append(mm.group(1))
+        return files
+
     def prove(self, modules, extra_sources=()):
         """Build the Props modules, audit every theorem in them.
         Returns list of broken obligations (strings); counts obligations/discharged."""
         broken = []
-        # forbidden constructs, anywhere in the library sources the modules may import
-        for root, _, files in os.walk(os.path.join(LEAN, "PPLV")):
-            for fn in files:
-                if fn.endswith(".lean"):
-                    p = os.path.join(root, fn)
-                    m = FORBIDDEN.search(strip_lean_comments(open(p).read()))
-                    if m:
-                        broken.append("forbidden construct %r in %s" % (m.group(0), os.path.relpath(p, LEAN)))
+        # forbidden constructs, in every project source the modules (transitively) import
+        for p in self.import_closure(modules):
+            m = FORBIDDEN.search(strip_lean_comments(open(p).read()))
+            if m:
+                broken.append("forbidden construct %r in %s" % (m.group(0), os.path.relpath(p, LEAN)))
         ok, log = self.lake_build(modules)
         thms = []
         for mod in modules:
